@@ -15,6 +15,7 @@ import (
 	"encoding/json"
 	"fmt"
 	"math"
+	"runtime"
 	"strings"
 
 	"verif/harness/hx"
@@ -74,6 +75,20 @@ type boxBoxDesc struct {
 	C, Size, BC, BSize []float64
 	Probes             [][]float64
 	Exact              bool
+	BPoint             bool // the box to encapsulate is the single-point box NewAABBFromPoints(BC)
+}
+type boxFromDesc struct {
+	Pts   [][]float64
+	Exact bool
+}
+
+// array-level entry point on a large array: the points are integers in [-9,9] drawn from PSeed
+type bigDesc struct {
+	Entry   string // mesh.Rotate mesh.Translate mesh.Scale mesh.ApplyTRS trs.TransformArray trs.TransformInPlace quat.RotateArray
+	N       int
+	PSeed   uint64
+	Workers int // GOMAXPROCS while the array-level function runs
+	P, S, Q []float64
 }
 type closestDesc struct {
 	C, Size, V []float64
@@ -446,6 +461,9 @@ func doBoxBox(d boxBoxDesc) {
 	crash := guard(func() {
 		old := geometry.NewAABB(toV(d.C), toV(d.Size))
 		other := geometry.NewAABB(toV(d.BC), toV(d.BSize))
+		if d.BPoint {
+			other = geometry.NewAABBFromPoints(toV(d.BC))
+		}
 		nb := old
 		nb.EncapsulateBounds(other)
 		c, e = boxParts(old)
@@ -462,7 +480,129 @@ func doBoxBox(d boxBoxDesc) {
 		coq = fmt.Sprintf("CBoxBox %s %s %s %s %s %s %s %s", tolOf(d.Exact, 1+maxabs(d.C, d.Size, d.BC, d.BSize)), qlist(c), qlist(e),
 			qlist(bc), qlist(be), qlist(c2), qlist(e2), flags)
 	}
-	add("boxbox", d, nonzero(d.Size, d.BSize), coq, crash, ok)
+	add("boxbox", d, nonzero(flat(d.C, d.Size, d.BC, d.BSize)), coq, crash, ok)
+}
+
+func doBoxFrom(d boxFromDesc) {
+	var c, e []float64
+	var cont []string
+	crash := guard(func() {
+		pts := make([]vector3.Float64, len(d.Pts))
+		for i, p := range d.Pts {
+			pts[i] = toV(p)
+		}
+		b := geometry.NewAABBFromPoints(pts...)
+		c, e = boxParts(b)
+		for _, p := range pts {
+			cont = append(cont, hx.CoqBool(b.Contains(p)))
+		}
+	})
+	coq := ""
+	ok := crash == "" && finite(flat(c, e)...)
+	if ok {
+		coq = fmt.Sprintf("CBoxFrom %s %s %s %s [%s]", tolOf(d.Exact, 1+maxabs(d.Pts...)), qlistlist(d.Pts), qlist(c), qlist(e),
+			strings.Join(cont, ";"))
+	}
+	add("boxfrom", d, len(d.Pts) > 0 && nonzero(flat(d.Pts...)), coq, crash, ok)
+}
+
+var bigOps = map[string]int{"mesh.Rotate": 0, "quat.RotateArray": 0, "mesh.Translate": 1, "mesh.Scale": 2,
+	"mesh.ApplyTRS": 3, "trs.TransformArray": 3, "trs.TransformInPlace": 3}
+
+func doBig(d bigDesc) {
+	op, known := bigOps[d.Entry]
+	if !known || d.N < 1 {
+		return
+	}
+	pr := hx.NewRng(d.PSeed)
+	in := make([]vector3.Float64, d.N)
+	for i := range in {
+		in[i] = vector3.New(float64(pr.Range(-9, 9)), float64(pr.Range(-9, 9)), float64(pr.Range(-9, 9)))
+	}
+	q, t := toQ(d.Q), trs.New(toV(d.P), toQ(d.Q), toV(d.S))
+	var scalar func(vector3.Float64) vector3.Float64
+	switch op {
+	case 0:
+		scalar = q.Rotate
+	case 1:
+		scalar = func(v vector3.Float64) vector3.Float64 { return v.Add(toV(d.P)) }
+	case 2:
+		scalar = func(v vector3.Float64) vector3.Float64 { return v.MultByVector(toV(d.S)) }
+	default:
+		scalar = t.Transform
+	}
+	var out []vector3.Float64
+	crash := guard(func() {
+		if d.Workers > 0 {
+			defer runtime.GOMAXPROCS(runtime.GOMAXPROCS(d.Workers))
+		}
+		mesh := func() modeling.Mesh {
+			return modeling.NewMesh(modeling.PointTopology, []int{}).SetFloat3Attribute(modeling.PositionAttribute, append([]vector3.Float64{}, in...))
+		}
+		pos := func(m modeling.Mesh) []vector3.Float64 {
+			it := m.Float3Attribute(modeling.PositionAttribute)
+			o := make([]vector3.Float64, it.Len())
+			for i := range o {
+				o[i] = it.At(i)
+			}
+			return o
+		}
+		switch d.Entry {
+		case "mesh.Rotate":
+			out = pos(mesh().Rotate(q))
+		case "mesh.Translate":
+			out = pos(mesh().Translate(toV(d.P)))
+		case "mesh.Scale":
+			out = pos(mesh().Scale(toV(d.S)))
+		case "mesh.ApplyTRS":
+			out = pos(mesh().ApplyTRS(t))
+		case "trs.TransformArray":
+			out = t.TransformArray(append([]vector3.Float64{}, in...))
+		case "trs.TransformInPlace":
+			out = append([]vector3.Float64{}, in...)
+			t.TransformInPlace(out)
+		case "quat.RotateArray":
+			out = q.RotateArray(append([]vector3.Float64{}, in...))
+		}
+	})
+	mism, first := 0, -1
+	for i := 0; i < len(in) && i < len(out); i++ {
+		if out[i] != scalar(in[i]) {
+			if first < 0 {
+				first = i
+			}
+			mism++
+		}
+	}
+	// samples evaluated in Coq: ends, middle, the start of a possible remainder chunk, the first mismatch
+	idx := []int{0, d.N / 2, d.N - 2, d.N - 1}
+	if d.Workers > 0 && d.N%d.Workers != 0 {
+		idx = append(idx, d.N-d.N%d.Workers)
+	}
+	if first >= 0 {
+		idx = append(idx, first)
+	}
+	seen := map[int]bool{}
+	var items []string
+	ok := crash == ""
+	for _, i := range idx {
+		if i < 0 || i >= len(in) || i >= len(out) || seen[i] {
+			continue
+		}
+		seen[i] = true
+		o := fromV(out[i])
+		ok = ok && finite(o...)
+		if ok {
+			items = append(items, "("+qlist(fromV(in[i]))+","+qlist(o)+")")
+		}
+	}
+	coq := ""
+	if ok {
+		coq = fmt.Sprintf("CBig 0%%Q %d %d %d %s %s %s %s [%s]", op, d.N, mism, hx.CoqBool(len(out) == d.N),
+			qlist(d.P), qlist(d.S), qlist(d.Q), strings.Join(items, ";"))
+	}
+	run.Count("big:" + d.Entry)
+	add("big", d, true, coq, crash, ok)
 }
 
 func doClosest(d closestDesc) {
@@ -529,6 +669,14 @@ func dispatch(kind string, raw json.RawMessage) {
 		var d boxBoxDesc
 		un(&d)
 		doBoxBox(d)
+	case "boxfrom":
+		var d boxFromDesc
+		un(&d)
+		doBoxFrom(d)
+	case "big":
+		var d bigDesc
+		un(&d)
+		doBig(d)
 	case "closest":
 		var d closestDesc
 		un(&d)
